@@ -80,6 +80,10 @@ def main():
     try:
         rc, out = sh("git -C " + REPO + " apply %s" % patch)
         if rc != 0:
+            # the repository moved on since the agent's worktree was taken (later fix: commits): three-way
+            rc, out = sh("git -C " + REPO + " apply --3way %s && git -C " % patch + REPO + " reset -q")
+            meta["applied_with_3way"] = rc == 0
+        if rc != 0:
             note("error", "patch does not apply to /repo: " + out[-300:])
             return finish(name, src, meta)
         for pid in ids:
